@@ -294,3 +294,116 @@ _add(Cond('frame_group_key_kinds_all_layouts', [('kk', 'int'), ('two', 'bool'), 
         functions=['Frame._axis_group_loc_items'],
         bounds='3-row frame (payload, key, second int key); the KIND of the key column symbolic over (int64, str, float64, bool), its values symbolic (two values per kind), one key column or the pair (symbolic); every block layout that can hold the kinds; tie tape for non-stable sorts',
         route='Frame.iter_group_items(key | [key, second]): partition, constant key (value and type), ascending key order, row order and whole rows kept', timeout=400))
+
+
+# ---------------------------------------------------------------- every window INTERFACE form agrees (items / values / arrays / apply), mixed-kind frames
+
+def body_window_forms(env, size, step, label_shift, start_shift, window_sized, axis_flag, form):
+    from vf import rt
+    size, step = concretize(size, 1, 3), concretize(step, 1, 2)
+    label_shift, start_shift = concretize(label_shift, -1, 1), concretize(start_shift, -1, 1)
+    window_sized, axis, form = bool(window_sized), (1 if axis_flag else 0), concretize(form, 0, 4)
+
+    def run():
+        sf = env.sf
+        n = 4
+        labels = [100 + i for i in range(n)]
+        # mixed column kinds: windows along axis 0 cut ACROSS blocks of different dtype
+        if axis == 0:
+            f = sf.Frame.from_items((('a', env.array([10, 11, 12, 13], 'int64')), ('b', env.array([0.5, 1.5, 2.5, 3.5], 'float64')), ('c', env.array([True, False, True, False], 'bool'))), index=labels)
+            line = lambda i: [10 + i, 0.5 + i, i % 2 == 0]     # noqa: E731
+        else:
+            f = sf.Frame.from_items(((labels[i], env.array([10 + i, 20 + i], 'int64')) for i in range(n)), index=('r0', 'r1'))
+            line = lambda i: [10 + i, 20 + i]                   # noqa: E731
+        kw = dict(size=size, step=step, axis=axis, window_sized=window_sized, label_shift=label_shift, start_shift=start_shift)
+        ref = ref_windows(n, size, step, window_sized, label_shift, start_shift, 0)
+
+        def cells(w):
+            if isinstance(w, sf.Frame):
+                rows = w.values.tolist()
+                return env.obs(rows if axis == 0 else [[rows[r][c] for r in range(len(rows))] for c in range(w.shape[1])])
+            a = w.tolist()
+            if axis == 1:
+                return env.obs([[a[r][c] for r in range(len(a))] for c in range(len(a[0]))] if (a and a[0]) else [])
+            return env.obs(a)
+        want_items = [[labels[li], [line(i) for i in pos]] for li, pos in ref]
+        if form == 0:
+            got = [[env.obs(l), cells(w)] for l, w in f.iter_window_items(**kw)]
+            exp = want_items
+        elif form == 1:
+            got = [cells(w) for w in f.iter_window(**kw)]
+            exp = [w for _, w in want_items]
+        elif form == 2:
+            got = [[env.obs(l), cells(w)] for l, w in f.iter_window_array_items(**kw)]
+            exp = want_items
+        elif form == 3:
+            got = [cells(w) for w in f.iter_window_array(**kw)]
+            exp = [w for _, w in want_items]
+        else:
+            r = f.iter_window_items(**kw).apply(lambda l, w: w.shape[axis])
+            got = [env.obs(r.index.values.tolist()), env.obs(r.values.tolist())]
+            exp = [[l for l, _ in want_items], [len(w) for _, w in want_items]]
+        return got, exp
+    return rt.untraced(run)
+
+
+_add(Cond('window_interface_forms', [('size', 'int'), ('step', 'int'), ('label_shift', 'int'), ('start_shift', 'int'), ('window_sized', 'bool'), ('axis_flag', 'bool'), ('form', 'int')], body_window_forms,
+        ranges={'size': (1, 3), 'step': (1, 2), 'label_shift': (-1, 1), 'start_shift': (-1, 1), 'form': (0, 4)},
+        functions=['axis_window_items'],
+        bounds='Frame of 4 lines (axis 0: int / float / bool columns; axis 1: int); size 1..3, step 1..2, label_shift and start_shift in -1..1, window_sized, axis and the interface form (iter_window_items / iter_window / iter_window_array_items / iter_window_array / apply) symbolic',
+        route='every window interface form yields the same windows (anchor label, lines, cells with their types) as iter_window_items and the reference', timeout=400))
+
+
+# ---------------------------------------------------------------- grouping by label depth (Series and Frame), and group interface forms
+
+def body_group_forms(env, i0, i1, i2, i3, form, **kw):
+    from vf import rt
+    inner = [concretize(v, 0, 1) for v in (i0, i1, i2, i3)]
+    form = concretize(form, 0, 5)
+    tape = [bool(kw[f'tape{i}']) for i in range(3)]
+
+    def run():
+        sf = env.sf
+        if env.model:
+            env.nondet.install(list(tape))
+        outer = [0, 0, 1, 1]
+        tuples = list(zip(outer, inner))
+        vals = [7, 8, 9, 10]
+        groups_inner = ref_groups(inner)
+        if form == 0:     # Series grouped by VALUE: items
+            s = sf.Series(env.array(inner, 'int64'), index=[100, 101, 102, 103])
+            got = [[env.obs(g), env.obs(sub.index.values.tolist())] for g, sub in s.iter_group_items()]
+            exp = [[k, [100 + i for i in pos]] for k, pos in groups_inner]
+        elif form == 1:   # Series grouped by a label depth
+            ih = sf.IndexHierarchy.from_labels(tuples)
+            s = sf.Series(env.array(vals, 'int64'), index=ih)
+            got = [[env.obs(g), env.obs([list(t) for t in sub.index]), env.obs(sub.values.tolist())] for g, sub in s.iter_group_labels_items(1)]
+            exp = [[k, [list(tuples[i]) for i in pos], [vals[i] for i in pos]] for k, pos in groups_inner]
+        elif form == 2:   # Frame grouped by two label depths
+            ih = sf.IndexHierarchy.from_labels(tuples)
+            f = sf.Frame.from_items((('a', env.array(vals, 'int64')),), index=ih)
+            got = [[env.obs(list(g)), env.obs(sub.values.tolist())] for g, sub in f.iter_group_labels_items([0, 1])]
+            order = sorted(set(tuples))
+            exp = [[list(k), [[vals[i]] for i in range(4) if tuples[i] == k]] for k in order]
+        elif form == 3:   # grow-only frame: groups are grow-only frames of the same rows
+            f = sf.FrameGO.from_items((('k', env.array(inner, 'int64')), ('v', env.array(vals, 'int64'))), index=[100, 101, 102, 103])
+            got = [[env.obs(g), env.obs(sub.values.tolist())] for g, sub in f.iter_group_items('k')]
+            exp = [[k, [[inner[i], vals[i]] for i in pos]] for k, pos in groups_inner]
+        elif form == 4:   # values-only form and apply
+            f = sf.Frame.from_items((('k', env.array(inner, 'int64')), ('v', env.array(vals, 'int64'))), index=[100, 101, 102, 103])
+            r = f.iter_group('k').apply(lambda g: g['v'].sum())
+            got = [env.obs(r.index.values.tolist()), env.obs(r.values.tolist()), [env.obs(sub.index.values.tolist()) for sub in f.iter_group('k')]]
+            exp = [[k for k, _ in groups_inner], [sum(vals[i] for i in pos) for _, pos in groups_inner], [[100 + i for i in pos] for _, pos in groups_inner]]
+        else:             # groups along axis 1 of a mixed-kind frame (the key ROW is object dtype)
+            f = sf.Frame.from_items(((100 + c, env.array([inner[c], 0.5 + c], 'float64')) for c in range(4)), index=('k', 'v'))
+            got = [[env.obs(g), env.obs(sub.columns.values.tolist()), env.obs(sub.values.tolist())] for g, sub in f.iter_group_items('k', axis=1)]
+            exp = [[k, [100 + i for i in pos], [[inner[i] for i in pos], [0.5 + i for i in pos]]] for k, pos in groups_inner]
+        return got, exp
+    return rt.untraced(run)
+
+
+_add(Cond('group_interface_forms', [('i0', 'int'), ('i1', 'int'), ('i2', 'int'), ('i3', 'int'), ('form', 'int')], body_group_forms, tape=3,
+        ranges={'i0': (0, 1), 'i1': (0, 1), 'i2': (0, 1), 'i3': (0, 1), 'form': (0, 5)}, pre=['form not in (1, 2) or (i0 != i1 and i2 != i3)'],
+        functions=['array_to_groups_and_locations'],
+        bounds='4 keys symbolic in 0..1; grouping form symbolic: Series by value / Series by label depth / Frame by two label depths / FrameGO by column / iter_group + apply / axis 1 of a float frame; tie tape',
+        route='every grouping interface: partition with constant key, ascending key order, rows (columns) and their order kept', timeout=400))
